@@ -91,6 +91,14 @@ pub fn build_object<'a, K: AsRef<str>>(
     items: impl IntoIterator<Item = (K, &'a [u8])>,
     buf: &mut Vec<u8>,
 ) -> Result<(), Error> {
+    // collect the members into an ordered map first: object keys must be stored
+    // sorted and unique, if a key appears more than once the last value wins.
+    let items: Vec<(K, &'a [u8])> = items.into_iter().collect();
+    let mut members: BTreeMap<&str, &'a [u8]> = BTreeMap::new();
+    for (key, value) in items.iter() {
+        members.insert(key.as_ref(), *value);
+    }
+
     let start = buf.len();
     // reserve space for header
     buf.resize(start + 4, 0);
@@ -98,8 +106,7 @@ pub fn build_object<'a, K: AsRef<str>>(
     let mut key_data = Vec::new();
     let mut val_data = Vec::new();
     let mut val_jentries = VecDeque::new();
-    for (key, value) in items.into_iter() {
-        let key = key.as_ref();
+    for (key, value) in members.into_iter() {
         // write key jentry and key data
         let encoded_key_jentry = (STRING_TAG | key.len() as u32).to_be_bytes();
         buf.extend_from_slice(&encoded_key_jentry);
